@@ -47,6 +47,16 @@ UNITS = [
                  "instances (incl. values at every bound, astral characters) must validate; 14 instances with one "
                  "constraint broken and 13 structurally wrong documents must be rejected; judges: jsonschema "
                  "Draft 2019-09 and xmlschema", args={}, timeout_s=900),
+    # C07: soundness of the invariant type inference ("accepted invariants do not go wrong") needs a formal semantics
+    # of the invariant language as specification; bounded: small expressions evaluated with Python itself.
+    Native("accepted invariants evaluate to a boolean on type-conforming instances", ["C07"], "native.c07:bounded",
+           kind="bounded",
+           bound="1 901 invariant expressions over one class with properties str, int, bool, List[str], an enumeration "
+                 "and their Optional forms: all comparisons (== < >=) between properties, constants and len(...); "
+                 "is None / is not None / not / bare operands; guarded forms (implication, conjunction, wrong guard, "
+                 "guard under and/or) x 12 bodies; all(...) over lists; arithmetic.  Accepted ones (by the real type "
+                 "inference, run through the Python generator) are evaluated as Python on all 864 instances from small "
+                 "value sets (None only where Optional); exhaustive within the bound", args={}, timeout_s=900),
     # C08 / C10 / C29: run-time behaviour of the generated Python SDK -- decided by executing it, on a list of examples
     Native("behaviour of the generated Python SDK: verification, round trips, traversal", ["C08", "C10", "C29"],
            "native.c10:bounded", kind="examples",
